@@ -673,9 +673,12 @@ impl Relations {
     /// Replace the entry at the given index
     pub fn replace(&mut self, idx: usize, entry: Entry) {
         let current_entry = self.get_entry(idx).unwrap();
+        // splice in a copy: an entry that is still part of a field (this one or
+        // another) must not be moved out of it
+        let new_entry = SyntaxNode::new_root_mut(entry.0.green().into_owned());
         self.0.splice_children(
             current_entry.0.index()..current_entry.0.index() + 1,
-            vec![entry.0.into()],
+            vec![new_entry.into()],
         );
     }
 
@@ -784,7 +787,9 @@ impl Entry {
         let current_relation = self.get_relation(idx).unwrap();
 
         let old_root = current_relation.0;
-        let new_root = relation.0;
+        // work on a copy: a relation that is still part of an entry must not be
+        // moved out of it
+        let new_root = SyntaxNode::new_root_mut(relation.0.green().into_owned());
         // Preserve white the current relation has
         let mut prev = new_root.first_child_or_token();
         let mut new_head_len = 0;
